@@ -10,6 +10,7 @@ import (
 	"github.com/relab/hotstuff/protocol/rules"
 	"github.com/relab/hotstuff/zverif/cluster"
 	"github.com/relab/hotstuff/zverif/ev"
+	"github.com/relab/hotstuff/zverif/par"
 )
 
 func init() {
@@ -104,6 +105,7 @@ func e1Check(r *ev.Reporter, prop string, _ []string) {
 			r.Cap(fmt.Sprintf("%s: %d executions abandoned, command stock exhausted", desc, ex.Starved))
 		}
 	}
+	e1Scenarios(r, prop)
 	if prop == "C06" {
 		c06Chains(r)
 	}
@@ -116,4 +118,92 @@ func e1Check(r *ev.Reporter, prop string, _ []string) {
 	r.Assume("vote verification is synchronous; EdDSA with fixed keys; the wall clock in block hashes is a harness constant")
 	_ = hotstuff.ID(0)
 	r.Explanation = "Each transition runs the real handlers of one replica to quiescence; replay determinism is re-checked on the first 200 states and every 500th."
+}
+
+
+// e1Scenarios: Twins-style scenario enumeration on the same closed system. Every scenario fixes,
+// for each of its views, the leader (any replica id, the twinned one included) and a two-block
+// partition of the node slots; the lock-step FIFO schedule is run to completion (timers at
+// quiescence), later views are healed. One real execution per scenario, all monitors attached.
+func e1Scenarios(r *ev.Reporter, prop string) {
+	views := 2
+	budget := 40 * time.Second
+	if !r.Quick() {
+		views = 3
+		budget = 40 * time.Minute
+	}
+	type job struct {
+		rs string
+		sc []cluster.ScView
+	}
+	var jobs []job
+	const slots = 5 // replicas 1,2,4 + the two twins of replica 3
+	var masks []uint32
+	for m := uint32(0); m < 1<<slots; m++ {
+		if m&1 == 1 { // slot 0 always in block A (the complement is the same partition)
+			masks = append(masks, m)
+		}
+	}
+	for _, rs := range []string{rules.NameChainedHotStuff, rules.NameSimpleHotStuff} {
+		var sc []cluster.ScView
+		var rec func()
+		rec = func() {
+			if len(sc) == views {
+				jobs = append(jobs, job{rs, append([]cluster.ScView(nil), sc...)})
+				return
+			}
+			for l := 1; l <= 4; l++ {
+				for _, m := range masks {
+					sc = append(sc, cluster.ScView{Leader: hotstuff.ID(l), Mask: m})
+					rec()
+					sc = sc[:len(sc)-1]
+				}
+			}
+		}
+		rec()
+	}
+	deadline := time.Now().Add(budget)
+	var done, events, withCommits, skipped int64
+	var mu sync.Mutex
+	par.Each(len(jobs), func(i int) {
+		if time.Now().After(deadline) {
+			mu.Lock()
+			skipped++
+			mu.Unlock()
+			return
+		}
+		j := jobs[i]
+		cfg := cluster.Config{N: 4, Rules: j.rs, Horizon: hotstuff.View(views + 4), Timeouts: 40, Twin: 3, Scenario: j.sc, Cache: 100}
+		w := cluster.New(cfg)
+		n := 0
+		for ; n < 3000; n++ {
+			d := w.Default()
+			if d == "" || w.Starved {
+				break
+			}
+			if !w.Apply(d) {
+				ev.Broken("scenario run: default event not applicable")
+			}
+		}
+		mu.Lock()
+		done++
+		events += int64(n)
+		if w.Mon.Commits > 0 {
+			withCommits++
+		}
+		if done == 17 {
+			r.Sample(map[string]any{"scenario": fmt.Sprint(j.sc), "ruleset": j.rs, "events": n, "commits_observed": w.Mon.Commits})
+		}
+		mu.Unlock()
+		for _, v := range w.Mon.Viol {
+			if v.Prop == prop {
+				r.Violation(fmt.Sprintf("%s %s: %s", prop, j.rs, v.Sig), fmt.Sprintf("scenario (leader, partition mask over slots [r1 r2 r3a r3b r4]) %v, %s, lock-step schedule, events [%s]: %s", j.sc, j.rs, strings.Join(w.Trace, " | "), v.What), map[string]any{"scenario": fmt.Sprint(j.sc), "ruleset": j.rs, "events": w.Trace})
+			}
+		}
+	})
+	r.Count(done, events, events, withCommits)
+	r.Extra["scenario_part"] = fmt.Sprintf("%d-view scenarios x {chained, simple}: %d of %d executed (%d not run: time cap), %d events, %d executions with commits", views, done, len(jobs), skipped, events, withCommits)
+	if skipped > 0 {
+		r.Cap(fmt.Sprintf("scenario enumeration: %d of %d scenarios not run (time cap)", skipped, len(jobs)))
+	}
 }
